@@ -44,6 +44,17 @@ type Solver struct {
 	rlimit  int
 	tmo     int // ms
 	buf     strings.Builder
+	// everything defined and asserted in the current path scope, for the one-shot fallback solver
+	pathLog   []string
+	weak      bool
+	Fallbacks FallbackStats
+}
+
+// FallbackStats counts the queries the primary solver could not decide and what the
+// second solver (cvc5 with the integer encoding of bit-vectors) answered for them.
+type FallbackStats struct {
+	Asked, Sat, Unsat, Unknown int
+	Time                       time.Duration
 }
 
 func NewSolver(bin string, rlimit, timeoutMs int) (*Solver, error) {
@@ -82,6 +93,7 @@ func (s *Solver) start() error {
 	s.out = bufio.NewReaderSize(out, 1<<16)
 	s.defined = map[int]bool{}
 	s.inPath = false
+	s.weak = false
 	if !strings.Contains(s.bin, "cvc5") {
 		s.send("(set-option :produce-models true)\n")
 		if s.tmo > 0 {
@@ -112,6 +124,87 @@ func (s *Solver) send(str string) {
 	io.WriteString(s.in, str)
 }
 
+// weaken: the primary solver has met a query it cannot decide within its time limit; the
+// queries that follow in this worker are likely of the same kind, so it gets 5 s each
+// before the second solver is asked.
+func (s *Solver) weaken() {
+	if !s.weak && s.cmd != nil && !strings.Contains(s.bin, "cvc5") {
+		s.weak = true
+		s.send("(set-option :timeout 5000)\n")
+	}
+}
+
+// sendScoped sends text that belongs to the current path scope (definitions, assertions) and remembers it.
+func (s *Solver) sendScoped(str string) {
+	if str == "" {
+		return
+	}
+	s.pathLog = append(s.pathLog, str)
+	s.send(str)
+}
+
+// fallback decides pathLog ∧ extra with a second solver in one shot: cvc5 with
+// --solve-bv-as-int=sum, which keeps the mod-2^k semantics and decides
+// multiply/divide-by-constant kernels that bit-blasting does not finish.
+// vars != nil also asks for their values. Disabled with GOSYM_FALLBACK=off.
+func (s *Solver) fallback(extra *Term, vars []*Term) (SatResult, string) {
+	bin := os.Getenv("GOSYM_FALLBACK")
+	if bin == "off" || strings.Contains(s.bin, "cvc5") {
+		return Unknown, ""
+	}
+	if bin == "" {
+		bin = "cvc5"
+	}
+	start := time.Now()
+	defer func() { s.Fallbacks.Time += time.Since(start) }()
+	s.Fallbacks.Asked++
+	f, err := os.CreateTemp("/var/tmp", "gosym-fb-*.smt2")
+	if err != nil {
+		s.Fallbacks.Unknown++
+		return Unknown, ""
+	}
+	defer os.Remove(f.Name())
+	var b strings.Builder
+	b.WriteString("(set-logic ALL)\n")
+	for _, l := range s.pathLog {
+		b.WriteString(l)
+	}
+	if extra != nil {
+		b.WriteString("(assert " + refSMT(extra) + ")\n")
+	}
+	b.WriteString("(check-sat)\n")
+	if len(vars) > 0 {
+		b.WriteString("(get-value (")
+		for _, v := range vars {
+			b.WriteString(" " + refSMT(v))
+		}
+		b.WriteString("))\n")
+	}
+	f.WriteString(b.String())
+	f.Close()
+	tl := 30000
+	if s.tmo > 60000 {
+		tl = 120000
+	}
+	args := []string{"--lang=smt2", "--solve-bv-as-int=sum", fmt.Sprintf("--tlimit=%d", tl)}
+	if len(vars) > 0 {
+		args = append(args, "--produce-models")
+	}
+	out, _ := exec.Command(bin, append(args, f.Name())...).Output()
+	txt := string(out)
+	first := strings.TrimSpace(strings.SplitN(txt, "\n", 2)[0])
+	switch {
+	case first == "sat" && !strings.Contains(txt, "(error"):
+		s.Fallbacks.Sat++
+		return Sat, txt
+	case first == "unsat" && !strings.Contains(txt, "(error"):
+		s.Fallbacks.Unsat++
+		return Unsat, txt
+	}
+	s.Fallbacks.Unknown++
+	return Unknown, ""
+}
+
 // BeginPath opens a fresh scope.
 func (s *Solver) BeginPath() {
 	if s.inPath {
@@ -119,6 +212,7 @@ func (s *Solver) BeginPath() {
 	}
 	s.send("(push 1)\n")
 	s.inPath = true
+	s.pathLog = s.pathLog[:0]
 	for k := range s.defined {
 		delete(s.defined, k)
 	}
@@ -166,14 +260,14 @@ func (s *Solver) define(t *Term) {
 			}
 		}
 	}
-	s.send(s.buf.String())
+	s.sendScoped(s.buf.String())
 	s.buf.Reset()
 }
 
 // Assert adds t to the path scope permanently.
 func (s *Solver) Assert(t *Term) {
 	s.define(t)
-	s.send("(assert " + refSMT(t) + ")\n")
+	s.sendScoped("(assert " + refSMT(t) + ")\n")
 }
 
 func (s *Solver) readLine() (string, error) {
@@ -234,6 +328,12 @@ func (s *Solver) Check(extra *Term) SatResult {
 			s.send("(pop 1)\n")
 		}
 	}
+	if r == Unknown {
+		s.weaken()
+		if fr, _ := s.fallback(extra, nil); fr != Unknown {
+			r = fr
+		}
+	}
 	s.Stats.Queries++
 	s.Stats.Time += time.Since(start)
 	switch r {
@@ -261,6 +361,18 @@ func (s *Solver) Model(extra *Term, vars []*Term) (map[string]uint64, SatResult)
 	}
 	r := s.checkSat()
 	s.Stats.Queries++
+	if r == Unknown {
+		s.weaken()
+		if fr, txt := s.fallback(extra, vars); fr == Sat {
+			res := map[string]uint64{}
+			if i := strings.Index(txt, "\n"); i >= 0 {
+				parseModel(txt[i+1:], vars, res)
+			}
+			return res, Sat
+		} else if fr == Unsat {
+			return nil, Unsat
+		}
+	}
 	if r != Sat {
 		return nil, r
 	}
